@@ -116,6 +116,15 @@ CHECKS = {
         "pandas/numpy samplers wrapped (draws recorded), edges compared with the model, and pair sets, sites, row indices, types and "
         "locs checked on the implementation, with the binomial forced to 0, 1, 2.",
    note=TRUST + "pandas groupby(...).sample ordering (post-cell major) is observed, not proved. Fixed: F7, F8, N9."),
+ "C10": dict(cat="proof", ref="DESIGN.md §4 C10",
+   technique="Lean 4 theorems on the scatter model (frame, padding, order) + bit-exact correspondence of index groups and scattered arrays",
+   text="Theorems for every array, index groups and values: a scatter with disjoint groups gives row i the value of its group and leaves "
+        "every other row untouched; padding unequal groups with the out-of-bounds index changes nothing; scattering one group with one "
+        "value equals writing that value to exactly these rows (set = data_set = trainable); later pstate entries win, earlier ones "
+        "survive elsewhere. On the implementation: make_trainable's index arrays equal the model's padded groups, get_all_parameters/"
+        "get_all_states arrays equal the model's bit for bit, set changes exactly the in-view rows holding the key, the three routes "
+        "give identical arrays (node, channel, initial-state and edge keys), write_trainables stores the simulated arrays.",
+   note=TRUST + "JAX scatter semantics (out-of-bounds dropped, rows in order) restated in the model. Simulation equality follows from array equality. F2 fixed."),
 }
 
 def main():
